@@ -259,7 +259,7 @@ func faultClass(r any) string {
 	}, s)
 }
 
-var genericErr = []string{"cannot be applied", "expected a", "expected an", "argument", "cannot iterate", "cannot index", "not defined", "cannot be"}
+var genericErr = []string{"cannot ", "can't be a", "expected a", "expected an", "argument", "not defined", "invalid path", "is not valid in"}
 
 func nontrivial(out any) bool {
 	m, ok := out.(map[string]any)
